@@ -4,9 +4,12 @@ package resolver
 
 import (
 	"context"
+	"time"
 
 	"github.com/miekg/dns"
 	"github.com/semihalev/sdns/internal/authority"
+	"github.com/semihalev/sdns/internal/cache"
+	"github.com/semihalev/sdns/middleware"
 )
 
 // Accessors for the C11 check (limiter slots). No behaviour change.
@@ -48,4 +51,99 @@ func VerifC11LateWorker(r *Resolver, addr string) (acquired bool) {
 	server := authority.NewServer(addr, authority.IPv4)
 	r.queryServer(ctx, &resolveState{}, interrupts, req.Id, req.Copy(), server, results, false)
 	return true
+}
+
+// VerifC11ZL drives a real zoneInflightLimiter exactly as its one caller, the
+// singleflight leader closure of Resolver.groupLookup, does:
+//
+//	release, ok := acquire(zone); if !ok { return errZoneCapacity }; defer release()
+type VerifC11ZL struct {
+	l    *zoneInflightLimiter
+	held map[string][]func()
+}
+
+func VerifC11NewZL(perZone int) *VerifC11ZL {
+	return &VerifC11ZL{l: newZoneInflightLimiter(perZone), held: map[string][]func(){}}
+}
+
+// Enter is the closure's entry: false = shed (the closure returns at once, nothing deferred).
+func (z *VerifC11ZL) Enter(zone string) bool {
+	release, ok := z.l.acquire(zone)
+	if !ok {
+		return false
+	}
+	z.held[zone] = append(z.held[zone], release)
+	return true
+}
+
+// Leave is the closure's return for one admitted lookup of zone (the deferred release).
+func (z *VerifC11ZL) Leave(zone string) bool {
+	h := z.held[zone]
+	if len(h) == 0 {
+		return false
+	}
+	h[len(h)-1]()
+	z.held[zone] = h[:len(h)-1]
+	return true
+}
+
+// Count is the sum of all bucket counters.
+func (z *VerifC11ZL) Count() int {
+	n := 0
+	for i := range z.l.buckets {
+		n += int(z.l.buckets[i].Load())
+	}
+	return n
+}
+
+// VerifC11ZoneQuota is the per-zone quota of r's limiter (0: none).
+func VerifC11ZoneQuota(r *Resolver) int {
+	if r.zoneInflight == nil {
+		return 0
+	}
+	return int(r.zoneInflight.perZone)
+}
+
+// VerifC11ZoneHold takes up to n reservations of zone on r's own limiter (as
+// n lookups in flight would) and returns how many it got and their release.
+func VerifC11ZoneHold(r *Resolver, zone string, n int) (got int, release func()) {
+	var rel []func()
+	for i := 0; i < n; i++ {
+		if f, ok := r.zoneInflight.acquire(zone); ok {
+			rel = append(rel, f)
+		}
+	}
+	return len(rel), func() {
+		for _, f := range rel {
+			f()
+		}
+	}
+}
+
+// VerifC11GroupLookup runs the real Resolver.groupLookup for (name, A) against
+// one authority of zone at addr, under ctx.
+func VerifC11GroupLookup(r *Resolver, ctx context.Context, name, zone, addr string) (*dns.Msg, error) {
+	req := new(dns.Msg)
+	req.SetQuestion(name, dns.TypeA)
+	req.SetEdns0(1232, false)
+	servers := &authority.Servers{Zone: zone, List: []*authority.Server{authority.NewServer(addr, authority.IPv4)}}
+	return r.groupLookup(ctx, &resolveState{req: req, requestID: req.Id}, req, servers, false)
+}
+
+// VerifC11LookupV4Nss runs the real Resolver.lookupV4Nss for a glue-less
+// delegation of child to the given name-server host names, on a request
+// context prepared the way DNSHandler.handle prepares it.
+func VerifC11LookupV4Nss(r *Resolver, ctx context.Context, child string, hosts []string) (servers int, err error) {
+	ctx, _ = middleware.EnsureResolutionAttemptGuard(ctx)
+	q := dns.Question{Name: child, Qtype: dns.TypeNS, Qclass: dns.ClassINET}
+	auth := &authority.Servers{Zone: child}
+	hs := hostSet{}
+	for _, h := range hosts {
+		hs[h] = struct{}{}
+	}
+	err = r.lookupV4Nss(ctx, q, auth, cache.Key(q, false), nil, hostSet{}, hs, false, time.Now().Add(time.Minute))
+	auth.RLock()
+	servers = len(auth.List)
+	auth.RUnlock()
+	return servers, err
 }
